@@ -1404,6 +1404,12 @@ func (d *DFA) determinize(cache *DFACache, current *State, b byte) (*State, erro
 	// With match delay, the same NFA state set can produce both match and
 	// non-match DFA states (depending on whether the source had NFA match).
 	key := ComputeStateKeyWithWordAndMatch(nextNFAStates, nextIsFromWord, isMatch)
+	if d.config.BreakAtMatch {
+		// Leftmost-first: break-at-match depends on the priority ORDER of the NFA
+		// states, so sets with equal members but different order are different
+		// DFA states (e.g. `a*[ab]`: the states after "a" and after "b").
+		key = orderedStateKey(key, nextNFAStates)
+	}
 
 	// Check if state already exists in cache
 	if existing, ok := cache.Get(key); ok {
